@@ -319,6 +319,14 @@ func Render(m *Model, c Chooser, o RenderOpts) *Rendered {
 	nItems := len(m.Types) + len(m.Conds)
 	item := 0
 	for ti, t := range m.Types {
+		if m.PadLines > 0 && ti == m.PadBefore {
+			n := m.PadLines
+			if w.eol != "\n" && n > 200 {
+				n = 200 // long runs of CR LF (or CR) lex in more than quadratic time: recorded finding T5
+			}
+			w.emit(strings.Repeat(w.eol, n))
+			w.feat["blank-lines"] = true
+		}
 		w.nl(0, false)
 		if o.Extend[ti] {
 			w.emit("extend")
